@@ -6,9 +6,14 @@ import tempfile
 CVC5 = "/usr/bin/cvc5"
 
 
-def cvc5_check(solver, extra, timeout_s=20):
+def cvc5_check(solver, extra, timeout_s=20, want_model=False):
+    r = _cvc5_check(solver, extra, timeout_s, want_model)
+    return r if want_model else r[0]
+
+
+def _cvc5_check(solver, extra, timeout_s, want_model):
     if not os.path.exists(CVC5):
-        return "unknown"
+        return "unknown", ""
     solver.push()
     try:
         for e in extra:
@@ -16,16 +21,20 @@ def cvc5_check(solver, extra, timeout_s=20):
         smt = solver.to_smt2()
     finally:
         solver.pop()
-    smt = "(set-logic ALL)\n" + smt
+    # z3's simplifier introduces its internal total versions of seq.nth
+    smt = "(set-logic ALL)\n" + smt.replace("seq.nth_i", "seq.nth").replace("seq.nth_u", "seq.nth")
     with tempfile.NamedTemporaryFile("w", suffix=".smt2", delete=False, dir=os.environ.get("PYVC_TMP")) as f:
         f.write(smt)
         path = f.name
     try:
-        p = subprocess.run([CVC5, "--strings-exp", f"--tlimit={timeout_s * 1000}", path],
-                           capture_output=True, text=True, timeout=timeout_s + 5)
+        args = [CVC5, "--strings-exp", f"--tlimit={timeout_s * 1000}"]
+        if want_model:
+            args += ["--produce-models", "--dump-models"]
+        p = subprocess.run(args + [path], capture_output=True, text=True, timeout=timeout_s + 5)
         out = p.stdout.strip().splitlines()
-        return out[0] if out and out[0] in ("sat", "unsat") else "unknown"
+        verdict = out[0] if out and out[0] in ("sat", "unsat") else "unknown"
+        return verdict, ("\n".join(l for l in out[1:] if "!" in l and "define-fun" in l)[:3000] if verdict == "sat" else "")
     except Exception:
-        return "unknown"
+        return "unknown", ""
     finally:
         os.unlink(path)
